@@ -515,7 +515,14 @@ func runC07(sh *core.Shard, a props.Args) {
 		if a.Thorough() && r.Intn(20) == 0 {
 			c.LenAB = 1 << 22
 		}
-		if c.MaxWrite == 1 && c.LenAB+c.LenBA > 20000 {
+		// keep the number of WebSocket messages per connection bounded (a 4 MiB
+		// stream in 7-byte messages is a million round trips through the race build)
+		switch total := c.LenAB + c.LenBA; {
+		case total > 1<<20 && c.MaxWrite < 5000:
+			c.MaxWrite = 5000
+		case total > 100000 && c.MaxWrite <= 7:
+			c.MaxWrite = 512
+		case total > 20000 && c.MaxWrite == 1:
 			c.MaxWrite = 64
 		}
 		if c.MaxRead <= 3 && c.LenAB+c.LenBA > 20000 {
